@@ -118,6 +118,17 @@ def check_hop_loop(ctx, r, fn, raw):
                      "the loop can come back to nni_msg_header_append without incrementing hops: the ttl check never trips")
         else:
             r.ob(fn, "hops++ on every iteration")
+    # the length is tested again for every word: the loop cannot come back to the append without passing the len >= 4 edge
+    # (a test made once in front of the loop says nothing about the second word of a backtrace whose body has 5 bytes)
+    for s in appends:
+        seen = fn.reach((s.b, s.i + 1), edge_ok=lambda b, k: not (b in len_ok and len_ok[b] == k))
+        if (s.b, s.i) in seen:
+            ctx.fail(r, fn, "length not tested for every backtrace word", s.line,
+                     "the hop loop can come back to nni_msg_header_append (line %s) without passing the nni_msg_len(msg) >= 4 test "
+                     "again: a body that ends inside a backtrace word is read past its end (bytes from beyond the message go into "
+                     "the header) and the malformed message is delivered instead of the peer being dropped" % s.line)
+        else:
+            r.ob(fn, "len >= 4 tested on every iteration")
     # append result checked, failure does not continue the loop
     for s in appends:
         ve = fn.value_edges(s)
